@@ -30,11 +30,19 @@ def gen_ids(rng, n):
     concatenation ambiguity)."""
     out = []
     first = gen_id(rng)
+    r0 = rng.random()
+    if r0 < 0.15:
+        # a family of long identifiers sharing a long common prefix
+        first = (rng.choice(["urn:uuid:", "doi:10.1/", "a", "/", "é"]) * 300)[: rng.choice([64, 65, 128, 255, 256, 1000])]
+    elif r0 < 0.3:
+        first = rng.choice(["abc", "Doi:10.5/X", "urn:UUID:1", "é", "ǅ", "ß"])  # case-variant family
     out.append(first)
     while len(out) < n:
         r = rng.random()
         b = rng.choice(out)
-        if r < 0.2:
+        if r0 < 0.3 and r < 0.7:
+            c = rng.choice([b.swapcase(), b.lower(), b.upper(), b + "x", b + b[-1:], b[:-1] + "Z"])
+        elif r < 0.2:
             c = b + rng.choice(["c", "/", ".", "b", "́"])
         elif r < 0.35 and len(b) > 1:
             c = b[:-1]
